@@ -307,6 +307,10 @@ type frameCond struct {
 }
 
 func (f *frame) frameConds(ct *Contract, env *specEnv, pre, post *hstate, eff map[string]bool) []frameCond {
+	return f.frameCondsItems(ct.Modifies, env, pre, post, eff)
+}
+
+func (f *frame) frameCondsItems(items []ModItem, env *specEnv, pre, post *hstate, eff map[string]bool) []frameCond {
 	vc := f.vc
 	// collect object-level exceptions per heap
 	type exc struct {
@@ -322,7 +326,7 @@ func (f *frame) frameConds(ct *Contract, env *specEnv, pre, post *hstate, eff ma
 		}
 		return ex[h]
 	}
-	for _, it := range ct.Modifies {
+	for _, it := range items {
 		switch {
 		case it.All:
 		case it.Heap != "":
@@ -356,7 +360,7 @@ func (f *frame) frameConds(ct *Contract, env *specEnv, pre, post *hstate, eff ma
 	}
 	sort.Strings(hs)
 	for _, h := range hs {
-		if h == "alloc" || h == "*" {
+		if h == "alloc" || h == "*" || strings.HasPrefix(h, "Gh.iter.") {
 			continue
 		}
 		x := ex[h]
